@@ -22,7 +22,9 @@ mod storeops;
 
 /// C19 cases run one at a time: the handle counters and the last-error slot are process-global
 static SERIAL: Lazy<Mutex<[usize; 3]>> = Lazy::new(|| Mutex::new([0; 3]));
-const WAIT: Duration = Duration::from_secs(30);
+/// A hang is still caught; a machine that is merely overloaded (a trivial scan_next was once not answered within 30 s while the
+/// whole thorough tier and ten other jobs were running) is not an alarm.
+const WAIT: Duration = Duration::from_secs(120);
 
 /// `ordered`: the order of the rows is determined; `known`: the set of rows is determined
 enum Slot { None, Handle(usize), List { ptr: usize, ordered: bool, known: bool, single: bool }, StrList(usize), Key(usize) }
@@ -99,6 +101,7 @@ struct Run {
     twin_keys: HashMap<usize, aries_askar::kms::LocalKey>,
     sealed: HashMap<usize, keyops::Sealed>,
     dirs: Vec<String>,
+    force_clobber: bool,   // the harness read LAST_ERROR itself during this op (retry / failure diagnostics)
     dumps: HashMap<usize, Value>,
     tw: Vec<(usize, Value)>,   // per op: the verdict of the Rust API (a fact the model is told, see model_input)
 }
@@ -158,8 +161,18 @@ impl Run {
         let expect = if ret == 0 && cb_given { 1 } else { 0 };
         self.cbs.push((cb_id, expect, i));
         if expect == 1 {
+            let t0 = std::time::Instant::now();
             let v = wait_cb(cb_id, WAIT);
-            if v.is_none() { self.fail(i, op, format!("callback:never-invoked:{}", op["op"].as_str().unwrap_or("")), json!({})); }
+            if v.is_none() {
+                // explain the occurrence: how long was waited, what the callback table holds, whether the callback shows up after all.
+                // (`wait_cb` tests the table and sleeps on the condition variable under ONE mutex, `record` inserts under the same
+                // mutex before it notifies, ids come from an atomic counter and the table is a static: no wake-up can be lost.)
+                let table = pending_table();
+                let late = wait_cb(cb_id, Duration::from_secs(15));
+                self.fail(i, op, format!("callback:never-invoked:{}", op["op"].as_str().unwrap_or("")), json!({"waited_ms": t0.elapsed().as_millis() as u64, "cb_id": cb_id,
+                    "callback_table": table.iter().rev().take(24).map(|(k, n)| json!([k, n])).collect::<Vec<_>>(), "arrived_within_15s_more": late.as_ref().map(|v| code_name(v.code())),
+                    "registered_waits": self.cbs.len()}));
+            }
             if let Some(v) = &v { self.check_panic(i, op, v.code()); }
             (ret, v)
         } else { (ret, None) }
@@ -243,7 +256,7 @@ pub fn exec(case: &Value, _tag: &str) -> Value {
     let mut guard = SERIAL.lock().unwrap_or_else(|e| e.into_inner());
     let mut last = *guard;
     let mut run = Run { slots: vec![], stores: HashMap::new(), sess: HashMap::new(), scans: HashMap::new(), issued: [vec![], vec![], vec![]],
-                        cbs: vec![], oracle: vec![], feat: BTreeMap::new(), twin_ok: true, files: HashMap::new(), paths: vec![], clobbered: false, last_early: false, last_seen_err: 0, tag: _tag.to_string(), twin_keys: HashMap::new(), sealed: HashMap::new(), dirs: vec![], dumps: HashMap::new(), tw: vec![] };
+                        cbs: vec![], oracle: vec![], feat: BTreeMap::new(), twin_ok: true, files: HashMap::new(), paths: vec![], clobbered: false, last_early: false, last_seen_err: 0, tag: _tag.to_string(), twin_keys: HashMap::new(), sealed: HashMap::new(), dirs: vec![], force_clobber: false, dumps: HashMap::new(), tw: vec![] };
     let ops = case["ops"].as_array().cloned().unwrap_or_default();
     let mut outs = vec![];
     current_error(); // the last-error slot is process-global: start every case with an empty one
@@ -265,6 +278,7 @@ pub fn exec(case: &Value, _tag: &str) -> Value {
             else if (name == "fetch_all" || name == "scan_start") && r == "Unsupported" { run.last_seen_err = 8; } // the caller must be able to retrieve it (D33: the unrepaired source returned without set_last_error); a clobbered slot stays undetermined
             else if !r.is_empty() && r != "Success" { run.clobbered = false; run.last_seen_err = num(r); }
         }
+        if run.force_clobber { run.clobbered = true; run.force_clobber = false; }
         run.feat(&format!("op:{}", op["op"].as_str().unwrap_or("")));
         if let Some(r) = o.get("r").and_then(|r| r.as_str()) { if r != "Success" { run.feat(&format!("ret:{}", r)); } }
         if let Some(e) = o.get("cb").and_then(|c| c.get("err")).and_then(|e| e.as_str()) { run.feat(&format!("cberr:{}", e)); }
@@ -411,17 +425,47 @@ fn step(run: &mut Run, i: usize, op: &Value, last: &mut [usize; 3]) -> Value {
                 let st = run.stores.get(&h).and_then(|s| s.twin.as_ref());
                 st.map(|st| block_on(async { if txn { st.transaction(opt_string(&op["profile"])).await } else { st.session(opt_string(&op["profile"])).await } }))
             } else { None };
+            // A Backend error on ONE side only is first treated as the known set-up transient ("database is locked" while a pool's
+            // first connections settle a fresh file, SQLITE_LOCKED on a shared cache): that side is tried again.  A real difference
+            // comes back every time and is reported with the error text.
+            let mut twin_res = twin_res;
+            let mut cb = cb;
+            let mut retried = false;
+            if let (Some(v), Some(Ok(_))) = (&cb, &twin_res) {
+                if v.code() == 1 {
+                    for k in 1..=6u64 {
+                        std::thread::sleep(Duration::from_millis(25 * k));
+                        let id2 = new_cb_id();
+                        let r2 = unsafe { askar_session_start(H(h), profile.ptr, txn as i8, Some(cb_handle), id2) };
+                        let (_, c2) = run.finish(i, op, r2, id2, true);
+                        retried = true; run.feat("retry:ffi:session_start-backend");
+                        if let Some(CbVal::Handle(0, _)) = &c2 { cb = c2; break; }
+                    }
+                }
+            }
+            if let (Some(CbVal::Handle(0, _)), Some(Err(e))) = (&cb, &twin_res) {
+                if kind_name(e) == "Backend" && run.twin_ok {
+                    for k in 1..=6u64 {
+                        std::thread::sleep(Duration::from_millis(25 * k));
+                        let st = run.stores.get(&h).and_then(|s| s.twin.as_ref());
+                        let r = st.map(|st| block_on(async { if txn { st.transaction(opt_string(&op["profile"])).await } else { st.session(opt_string(&op["profile"])).await } }));
+                        run.feat("retry:twin:session_start-backend");
+                        if let Some(Ok(_)) = &r { twin_res = r; break; }
+                    }
+                }
+            }
+            if retried { current_error(); run.force_clobber = true; run.tw.push((i, json!({"retried": true}))); }
             match cb {
                 Some(CbVal::Handle(0, sh)) => {
                     let ord = run.issued(i, op, 1, sh, last);
                     if !live { run.fail(i, op, "session_start:bad-handle->Success".into(), json!({"h": h})); }
-                    let twin = match twin_res { Some(Ok(s)) => Some(s), Some(Err(e)) => { run.fail(i, op, format!("session_start:rust:err:{}->ffi:ok", kind_name(&e)), json!({})); None } None => None };
+                    let twin = match twin_res { Some(Ok(s)) => Some(s), Some(Err(e)) => { run.fail(i, op, format!("session_start:rust:err:{}->ffi:ok", kind_name(&e)), json!({"rust_error": e.to_string(), "txn": txn})); None } None => None };
                     run.sess.insert(sh, TSess { store: h, twin, open: true });
                     run.set_slot(i, Slot::Handle(sh));
                     jret(ret, json!({"h": ord}))
                 }
                 Some(v) => {
-                    if let Some(Ok(_)) = twin_res { run.fail(i, op, format!("session_start:rust:ok->ffi:err:{}", code_name(v.code())), json!({})); }
+                    if let Some(Ok(_)) = twin_res { let text = current_error(); run.force_clobber = true; run.fail(i, op, format!("session_start:rust:ok->ffi:err:{}", code_name(v.code())), json!({"ffi_error": text, "txn": txn, "retried": retried})); }
                     if let Some(Err(e)) = &twin_res { if kind_name(e) != code_name(v.code()) { run.fail(i, op, format!("session_start:rust:err:{}->ffi:err:{}", kind_name(e), code_name(v.code())), json!({})); } }
                     drop_in_rt(twin_res);
                     jret(ret, cberr(v.code()))
